@@ -67,7 +67,8 @@ AuthVals ==
 AuthDec == UNION {{[t |-> "dec", k |-> "authsys", in |-> b, exp |-> Exp(DecAuthSys(b))] : b \in CutsFor(v, EncAuthSys(v)) \ {<< >>}} : v \in AuthVals}
 
 (* declared lengths around every documented limit, 2^31 and 2^32-1: only the word is literal *)
-Classes(lim) == {WOf(lim - 1), WOf(lim), WOf(lim + 1), W(32768, 0), W(65535, 65535)}
+\* ... and the lengths whose padded size wraps around 2^32 (2^32-4 .. 2^32-1)
+Classes(lim) == {WOf(lim - 1), WOf(lim), WOf(lim + 1), W(32768, 0), W(65535, 65532), W(65535, 65533), W(65535, 65534), W(65535, 65535)}
 Avails(w, lim) == IF WGt(w, lim + 1) THEN {0, 64}
                   ELSE {0, WVal(w) + Pad(WVal(w)), WVal(w) + Pad(WVal(w)) - 1} \cap Nat
 ClsFor(k, lim) == UNION {{[t |-> "cls", k |-> k, w |-> w, avail |-> a, lim |-> lim,
